@@ -3,6 +3,7 @@ package main
 // C08 (faithful reproduction: decode tables, summary wiring, accessors) and C20 (pre-decode agrees with validation).
 
 import (
+	"go/token"
 	"fmt"
 	"go/types"
 	"reflect"
@@ -503,6 +504,34 @@ func ruleC20(c *Ctx) {
 	c.rule("C20-R7", "the validated side is a complete decode: on every accepting path of ValidateEncodedResponse / ValidateEncodedLogoutResponsePOST the returned object is the target of exactly one xml.Unmarshal whose error is nil on that path (otherwise the validated header is a partial decode the pre-decoder cannot agree with)")
 	decodedComplete(c, "C20-R7", ssoSpec, loRespSpec)
 
+	c.rule("C20-R8", "rejection parity: a pre-decoder fails only for reasons full validation shares — the base64 decoder's error, the inflate reader's error, the decompressed-size limit (a path fact len(inflated) > limit) or the XML decoder's error, possibly wrapped; any other rejection (an extra size / shape / content pre-check) refuses messages that validation accepts")
+	for _, fn := range []string{"DecodeUnverifiedBaseResponse", "DecodeUnverifiedLogoutResponse"} {
+		r := c.kernel(fn, "*")
+		if r == nil {
+			continue
+		}
+		fname := shortFn(r.Root)
+		n := 0
+		ei := errIdx(r.Root)
+		for _, t := range r.Terms {
+			if t.Kind != "return" || ei < 0 || t.accepting(r.Root) {
+				continue
+			}
+			n++
+			ev := t.Vals[ei]
+			why, ok := sharedRejection(t, ev, 0)
+			what := "rejection is one that full validation shares [" + why + "]"
+			if ok {
+				c.ok("C20-R8", fname, what, c.P.InstrPos(t.Instr), why)
+			} else {
+				o := c.bad("C20-R8", fname, "rejection is one that full validation shares", c.P.InstrPos(t.Instr), "the pre-decoder fails with "+ap(ev)+" ("+why+"): full validation has no such rejection, so a message it accepts gets no pre-decode")
+				o.Path = t.pathDesc(c.P)
+			}
+		}
+		c.count("C20-R8/"+fn, n)
+		c.floor("C20-R8/"+fn, 3)
+	}
+
 	// R2 + R3
 	type pd struct{ fn, typ string }
 	for _, p := range []pd{{"DecodeUnverifiedBaseResponse", "*types.UnverifiedBaseResponse"}, {"DecodeUnverifiedLogoutResponse", "*types.LogoutResponse"}} {
@@ -754,4 +783,63 @@ func parserDefaults(c *Ctx, rule string) {
 	if fired == 0 {
 		c.bad(rule, "controls/etreesettings", "positive control", "-", "matcher did not flag the control that sets ReadSettings")
 	}
+}
+
+// sharedRejection: the error value is the base64 decoder's, the (limited) inflate read's, the XML decoder's, a fresh
+// error on a path that has established len(inflated) > limit, or an fmt.Errorf wrapping one of those.
+func sharedRejection(t *Terminal, ev Val, depth int) (string, bool) {
+	cv, ok := stripIface(ev).(*CallV)
+	if !ok || depth > 2 {
+		return "not the result of a decoding step", false
+	}
+	switch sn := shortName(cv.Callee); {
+	case sn == "(*encoding/base64.Encoding).DecodeString" && cv.Idx == 1:
+		return "base64 error", true
+	case sn == "encoding/xml.Unmarshal":
+		return "XML decoder error", true
+	case sn == "io.ReadAll" && cv.Idx == 1:
+		return "inflate read error", true
+	case sn == "fmt.Errorf" || sn == "errors.New":
+		// the size limit: the path knows limit < len(what io.ReadAll returned)
+		for _, f := range t.St.facts {
+			b, isB := f.Cond.(*BinV)
+			if !isB || b.Op != token.LSS {
+				continue
+			}
+			over := b.Y
+			if !f.Pol {
+				over = b.X // !(len < k): len >= k
+			}
+			for {
+				cv2, isConv := over.(*ConvV)
+				if !isConv {
+					break
+				}
+				over = cv2.X
+			}
+			if l, isL := over.(*CallV); isL && l.Callee == "len" && len(l.Args) == 1 {
+				if ra, isRA := l.Args[0].(*CallV); isRA && shortName(ra.Callee) == "io.ReadAll" {
+					return "decompressed size over the limit", true
+				}
+			}
+		}
+		// a wrapped shared error
+		if sn == "fmt.Errorf" && len(cv.Args) == 2 {
+			if sl, isS := cv.Args[1].(*SliceV); isS {
+				if arr, isA := sl.X.(*AllocV); isA {
+					for i := 0; i < 8; i++ {
+						cl, has := t.St.heap[mkIndexAddr(arr, intV(int64(i)), nil).Key()]
+						if !has {
+							break
+						}
+						if w, ok := sharedRejection(t, cl.val, depth+1); ok {
+							return "wraps " + w, true
+						}
+					}
+				}
+			}
+		}
+		return "a fresh error outside the size-limit path", false
+	}
+	return "error of " + shortName(cv.Callee), false
 }
